@@ -6,6 +6,7 @@ import (
 	"fmt"
 	"os"
 	"sort"
+	"strings"
 
 	"verif/ev"
 )
@@ -32,6 +33,26 @@ func IDs() []string {
 	}
 	sort.Strings(out)
 	return out
+}
+
+// panicOrigin returns the function in which a recovered panic was raised.
+func panicOrigin(stack string) string {
+	lines := strings.Split(stack, "\n")
+	for i, ln := range lines {
+		if strings.HasPrefix(ln, "panic(") {
+			for j := i + 1; j < len(lines); j++ {
+				l := strings.TrimSpace(lines[j])
+				if l == "" || strings.HasPrefix(l, "/") || strings.HasPrefix(l, "runtime.") {
+					continue
+				}
+				if k := strings.LastIndex(l, "("); k > 0 {
+					return l[:k]
+				}
+				return l
+			}
+		}
+	}
+	return ""
 }
 
 // Main runs check id at the given tier (or a replay).
@@ -68,6 +89,16 @@ func Main(id, tier, replay string) {
 		os.Exit(0)
 	}
 	r := ev.New(id, tier, c.Level)
+	// a panic that originates in the code under test is a finding, not a harness error
+	ev.PanicHook = func(val any, stack string) bool {
+		origin := panicOrigin(stack)
+		if !strings.HasPrefix(origin, "github.com/paulsonkoly/chess-3/") {
+			return false
+		}
+		fn := strings.TrimPrefix(origin, "github.com/paulsonkoly/chess-3/")
+		r.Fail("engine-panic/"+fn, map[string]any{"panic": fmt.Sprint(val), "stack": stack}, "panic in the code under test (%s): %v\n%s", fn, val, firstLines(stack, 14))
+		return true
+	}
 	c.Run(r)
 	r.Finish()
 }
